@@ -36,6 +36,17 @@ THEOREMS = ["PyOak.Legacy.C18." + t for t in [
     "inv_tvisit_partial", "inv_texec_partial", "inv_stepX_partial", "inv_runX_partial",
     "texec_unchanged", "stepX_texec_unchanged", "visitGo_quiet", "tvisit_quiet_unchanged", "tvisit_clone_swap_partial",
 ]]
+# AUDIT #10 (Props/C18Ranked.lean, C18Acyclic.lean, C18Queries.lean): acyclicity of admissible histories, the
+# independently built tree of cid_eq_spec exists, upward queries = parent chain = downward structure
+THEOREMS += ["PyOak.Legacy.C18." + t for t in [
+    "not_desc_of_closed", "replaceChild_edges", "replaceWith_edges", "construct_ev", "ranked_of_ev", "ranked_add_edge",
+    "replace_ranked", "duplicate_ev", "ranked_step", "ranked_init", "inv_ranked_run", "inv_ranked_run_init",
+    "matches_exists", "cid_eq_tree", "cid_eq_tree_run", "notDescB_sound", "admB_sound", "admRun_of_B",
+    "cyclic_reachable",
+    "upChain_unique", "ancestorsGo_eq", "ancestorsGo_sound", "isAncestorGo_eq", "getDepthGo_none_eq",
+    "getDepthGo_some_eq", "getDepth_eq", "chain_holds", "mem_chain_desc", "desc_mem_chain", "mem_chain_iff",
+    "length_le_of_nodup_lt", "chain_exists", "ancestors_total", "cyclic_walk_hangs",
+]]
 PARTIAL = [
     "inv_step / inv_run / inv_run_init: ALL operations of the model (construct / attach / detach / detach_self / "
     "duplicate / replace / replace_with with any receiver and any argument: None, detached node, attached root) "
@@ -51,8 +62,17 @@ PARTIAL = [
     "tvisit_clone_swap_partial: transform of an ATTACHED node with rules that match nothing replaces it by its clone (as "
     "coded: generic_visit returns the clone); the hypothesis that the clone's subtree is detached after duplicate is "
     "checked (decidable Quiet), not derived",
-    "ancestors_chain covers ancestors(); get_depth / is_ancestor / calculated xpath are the same walk along `parent` and "
-    "are compared with the structure by the oracle on the real objects, not by a separate theorem",
+    "ancestors / is_ancestor / get_depth: heap-level definitions in Model/LegacyQueries.lean (a conservative extension of "
+    "the model that the differential harness does NOT tie to the Python code; `parent`, which they walk, is tied by the K1 "
+    "state dump) are proved equal to the unique parent chain (getDepth_eq, isAncestorGo_eq, ancestorsGo_eq/_sound), the "
+    "chain is proved to be the downward structure (chain_holds, mem_chain_iff) and, on acyclic states, to exist with "
+    "length < size so that the model's fuel suffices (chain_exists, ancestors_total); the calculated xpath of the HEAP is "
+    "still compared with the structure by the oracle on the real objects only",
+    "acyclicity: Inv does not exclude cycles (cyclic_reachable: with a colliding content digest an inadmissible "
+    "replace_with returns and leaves an attached 2-cycle); Ranked (acyclic child graph) is preserved by every step, "
+    "whatever its outcome, under the decidable side condition Admissible / admB on the request (ranked_step, "
+    "inv_ranked_run), and then every node has an independently built equal tree (matches_exists, cid_eq_tree: "
+    "cid_eq_spec is non-vacuous); admissibility of the generated histories is enforced by the generator, not proved",
 ]
 RULE = ("seeded histories (25-45 generated operations + up to 3 operations built to be rejected) of construct "
         "(all child-field kinds, explicit / automatic ids, ensure_unique_id, create_as_duplicate, create_detached), "
